@@ -34,6 +34,16 @@ func (i *IRCServer) cmdServerSvsjoin(s *Session, reply *Replyctx, msg *irc.Messa
 	}
 	c, ok := i.channels[ChanToLower(channelname)]
 	if !ok {
+		// Like in cmdJoin: the channel limit also applies to channels which
+		// are created by services.
+		if got, limit := uint64(len(i.channels)), i.ChannelLimit(); got >= limit && limit > 0 {
+			i.sendServices(reply, &irc.Message{
+				Prefix:  i.ServerPrefix,
+				Command: irc.ERR_NOSUCHCHANNEL,
+				Params:  []string{msg.Prefix.Name, channelname, "No such channel"},
+			})
+			return
+		}
 		c = &channel{
 			name:  channelname,
 			nicks: make(map[lcNick]*[maxChanMemberStatus]bool),
